@@ -66,6 +66,11 @@ func (c *Ctx) compareReads(pj *simdjson.ParsedJson, specDump string, info map[st
 	if aerr != nil || ai != walk {
 		c.Violate("read-path", "AdvanceIter/Parse traversal differs from plain traversal", sigPrefix+"adviter", mk(map[string]interface{}{"adviter": trunc(ai, 400), "walk": trunc(walk, 400), "err": fmt.Sprint(aerr)}))
 	}
+	if werr == nil {
+		if rr, rerr := rootReuseDump(pj); rerr != nil || rr != walk {
+			c.Violate("read-path", "Root(dst) with a destination iterator that was used before differs from plain traversal", sigPrefix+"root-reused-dst", mk(map[string]interface{}{"reused": trunc(rr, 400), "walk": trunc(walk, 400), "err": fmt.Sprint(rerr)}))
+		}
+	}
 	if mden != "NONE" && mden != mwalk {
 		c.Violate("model", "model: traversal of the tape differs from its denotation (theorem C02_traversals_eq_denote would be false)", sigPrefix+"model-den", mk(map[string]interface{}{"den": trunc(mden, 400), "walk": trunc(mwalk, 400)}))
 	}
